@@ -46,22 +46,52 @@ def check(ctx: Ctx) -> None:
     c07_r1(ctx, "C05.R11")
 
 
+class Contrib:
+    """One way elements get into a set variable: `S.add(e)`, `S.update(<iterable / comprehension>)`, `S = {e for ...}`."""
+    def __init__(self, sname: str, node: Node, elt: ast.AST, gens: List[Tuple[Optional[str], ast.AST]], filters: List[ast.AST]) -> None:
+        self.sname, self.node, self.elt, self.gens, self.filters = sname, node, elt, gens, filters
+
+
+def contributions(ctx: Ctx, f: FunctionInfo) -> List[Contrib]:
+    out: List[Contrib] = []
+
+    def comp_parts(e: ast.AST):
+        if isinstance(e, (ast.SetComp, ast.ListComp, ast.GeneratorExp)):
+            gens = [((g_.target.id if isinstance(g_.target, ast.Name) else None), g_.iter) for g_ in e.generators]
+            filters = [c for g_ in e.generators for c in g_.ifs]
+            return e.elt, gens, filters
+        if isinstance(e, ast.Call) and isinstance(e.func, ast.Name) and e.func.id in ("set", "frozenset", "list") and len(e.args) == 1:
+            return comp_parts(e.args[0])
+        return None
+
+    for n in ctx.cfg(f).nodes:
+        a = n.ast
+        if n.kind == "call" and isinstance(a, ast.Call) and isinstance(a.func, ast.Attribute) and a.func.attr in ("add", "update") \
+                and a.args and isinstance(a.func.value, ast.Name):
+            cp = comp_parts(a.args[0]) if a.func.attr == "update" else None
+            if cp is not None:
+                out.append(Contrib(a.func.value.id, n, cp[0], cp[1], cp[2]))
+            else:
+                out.append(Contrib(a.func.value.id, n, a.args[0], [], []))
+        elif n.kind == "stmt" and isinstance(a, ast.Assign) and len(a.targets) == 1 and isinstance(a.targets[0], ast.Name):
+            cp = comp_parts(a.value)
+            if cp is not None:
+                out.append(Contrib(a.targets[0].id, n, cp[0], cp[1], cp[2]))
+    return out
+
+
 def reach_sets(ctx: Ctx) -> Dict[str, str]:
     """{role attr: local set variable} for the three reachability sets of collect(), found by ROLE: the set whose
-    inserted value derives from `.manifest_list` / `.manifest_path` / `.file_path`."""
+    inserted value derives from `.manifest_list` / `.manifest_path` / `.file_path` (insertion by add / update / a set
+    comprehension, in collect() itself or in a helper analysed in place)."""
     f = ctx.fn(GC + ".collect")
-    sl = ctx.slicer(f)
     out: Dict[str, str] = {}
-    for n in ctx.cfg(f).calls():
-        a = n.ast
-        if not (isinstance(a, ast.Call) and isinstance(a.func, ast.Attribute) and a.func.attr in ("add", "update") and a.args
-                and isinstance(a.func.value, ast.Name)):
-            continue
+    g_ = ctx.cfg(f)
+    ATTRS = ("manifest_list", "manifest_path", "file_path")
+    for c in contributions(ctx, f):
         # the NEAREST source attribute on the def-use chain of the inserted value (breadth-first by hop distance)
         role = None
-        ATTRS = ("manifest_list", "manifest_path", "file_path")
-        frontier = [(a.args[0], n.id)]
-        g_ = ctx.cfg(f)
+        frontier = [(c.elt, c.node.id)]
         for _hop in range(5):
             nxt = []
             for e, at in frontier:
@@ -80,7 +110,7 @@ def reach_sets(ctx: Ctx) -> Dict[str, str]:
                 break
             frontier = nxt
         if role and role not in out:
-            out[role] = a.func.value.id
+            out[role] = c.sname
     missing = {"manifest_list", "manifest_path", "file_path"} - set(out)
     if missing:
         raise AnalysisError(f"collect(): no reachability set is fed from {sorted(missing)} - anchors moved")
@@ -99,13 +129,19 @@ def membership_param(ctx: Ctx) -> str:
 
 
 def set_adds(ctx: Ctx, f: FunctionInfo, setname: str) -> List[Node]:
-    out = []
-    for n in ctx.cfg(f).calls():
-        a = n.ast
-        if isinstance(a, ast.Call) and isinstance(a.func, ast.Attribute) and a.func.attr in ("add", "update") \
-                and dotted(a.func.value) == setname:
-            out.append(n)
-    return out
+    return [c.node for c in contributions(ctx, f) if c.sname == setname]
+
+
+def contrib_of(ctx: Ctx, f: FunctionInfo, n: Node) -> Contrib:
+    return next(c for c in contributions(ctx, f) if c.node is n)
+
+
+def _iterates(ctx: Ctx, f: FunctionInfo, c: Contrib) -> List[Tuple[Optional[str], ast.AST]]:
+    """All iterations an insertion sits in: the enclosing `for` loops of its node plus the generators of its comprehension."""
+    g = ctx.cfg(f)
+    encl = [fr.node for fr in c.node.frames if fr.kind == "loop"]
+    outer = [((l.target.id if isinstance(l.target, ast.Name) else None), l.iter) for l in encl if isinstance(l, ast.For)]
+    return outer + list(c.gens)
 
 
 def r1(ctx: Ctx, rid: str = "C05.R1") -> None:
@@ -115,40 +151,48 @@ def r1(ctx: Ctx, rid: str = "C05.R1") -> None:
     f = ctx.fn(GC + ".collect")
     g = ctx.cfg(f)
     dom = ctx.dom(f, NORMAL)
+    sl = ctx.slicer(f)
     loops = [n for n in g.nodes if n.kind == "loop" and isinstance(n.ast, ast.For)]
-    snap_loops = [l for l in loops if norm_text(l.ast.iter).endswith(".snapshots")]  # type: ignore[union-attr]
-    ctx.ob(rid, f, "iterates metadata.snapshots", snap_loops[0] if snap_loops else None, bool(snap_loops),
-           "the walk starts from ALL retained snapshots, not only the current one")
+    cons = contributions(ctx, f)
     rs = reach_sets(ctx)
+    snap_iter = [c for c in cons if c.sname == rs["manifest_list"] and any(norm_text(it).endswith(".snapshots") for _v, it in _iterates(ctx, f, c))]
+    ctx.ob(rid, f, "iterates metadata.snapshots", snap_iter[0].node if snap_iter else None, bool(snap_iter),
+           "the walk starts from ALL retained snapshots, not only the current one")
     sets = {rs["manifest_list"]: "manifest_list", rs["manifest_path"]: "manifest_path", rs["file_path"]: "file_path"}
     for sname, attr in sets.items():
-        adds = set_adds(ctx, f, sname)
-        ctx.ob(rid, f, f"{sname} is populated", adds[0] if adds else None, bool(adds),
-               f"{sname}.add(...) exists", nontrivial=False, text=sname)
-        for a in adds:
-            sl = ctx.slicer(f)
-            arg = a.ast.args[0] if isinstance(a.ast, ast.Call) and a.ast.args else None
-            org = sl.origins(arg, a.id)
-            ok_src = any(isinstance(x, ast.Attribute) and x.attr == attr for e in org["exprs"] for x in ast.walk(e))
-            # conditions dominating the insertion inside its loop may only test the inserted path
+        mine = [c for c in cons if c.sname == sname]
+        ctx.ob(rid, f, f"{sname} is populated", mine[0].node if mine else None, bool(mine),
+               f"{sname} receives elements", nontrivial=False, text=attr)
+        for c in mine:
+            a = c.node
+            org = sl.origins(c.elt, a.id)
+            ok_src = any(isinstance(x, ast.Attribute) and x.attr == attr for e in list(org["exprs"]) + [c.elt] for x in ast.walk(e))
+            # conditions on the insertion (branches dominating it inside its loops, and the comprehension's `if`s) may only
+            # test the inserted path
             encl = [fr.node for fr in a.frames if fr.kind == "loop"]
-            conds = [b for b in g.nodes if b.kind == "branch" and b.id in dom[a.id]
-                     and any(fr.kind == "loop" and fr.node in encl for fr in b.frames)]
-            argnames = {n for n in names_in(arg) if n != "self" and not n.startswith("self.")} | \
+            conds: List[ast.AST] = [b.ast for b in g.nodes if b.kind == "branch" and b.ast is not None and b.id in dom[a.id]
+                                    and any(fr.kind == "loop" and fr.node in encl for fr in b.frames)]
+            cond_txt = [norm_text(x)[:40] for x in conds + c.filters]
+            gen_vars = {v for v, _it in c.gens if v}
+            argnames = {n for n in names_in(c.elt) if n != "self" and not n.startswith("self.")} | \
                 {n for n in org["names"] if not n.startswith("self")}
-            bad = [b for b in conds if not (names_in(b.ast) - {"self"}) <= argnames | {"self.storage"}
-                   and "exists" not in b.text]
+            bad = [x for x in conds + c.filters if not (names_in(x) - {"self"}) <= argnames | {"self.storage"} | gen_vars
+                   and "exists" not in norm_text(x)]
+            # a comprehension filter must test the element's own source (truthiness of the path), not another attribute
+            bad += [x for x in c.filters if x not in bad and not any(
+                isinstance(y, ast.Attribute) and y.attr == attr for y in ast.walk(x)) and not isinstance(x, ast.Name)]
             brk = [n for n in g.nodes if isinstance(n.ast, ast.Break) and any(fr.kind == "loop" and fr.node in encl for fr in n.frames)]
-            ctx.ob(rid, f, f"{sname}.add: source field and unfiltered", a, ok_src and not bad and not brk,
-                   f"inserted value derives from .{attr}; guarding conditions {[b.text[:40] for b in conds]} only test the path; no break"
-                   + (f"; filtering condition(s): {[b.text[:60] for b in bad]}" if bad else ""))
+            ctx.ob(rid, f, f"{sname}: source field and unfiltered", a, ok_src and not bad and not brk,
+                   f"inserted value derives from .{attr}; guarding conditions {cond_txt} only test the path; no break"
+                   + (f"; filtering condition(s): {[norm_text(b)[:60] for b in bad]}" if bad else ""), text=attr)
     # each reachable set is then iterated to read the next level
     for sname, reader in ((rs["manifest_list"], "read_manifest_list_file"), (rs["manifest_path"], "read_manifest_file")):
         lp = [l for l in loops if norm_text(l.ast.iter) == sname]  # type: ignore[union-attr]
         rd = ctx.calls(f, name=reader)
-        ok = bool(lp) and bool(rd) and all(any(fr.kind == "loop" and fr.node is lp[0].ast for fr in r.frames) for r in rd)
+        inl = [r for r in rd if lp and any(fr.kind == "loop" and fr.node is lp[0].ast for fr in r.frames)]
+        ok = bool(lp) and bool(inl)
         ctx.ob(rid, f, f"every element of {sname} is read with {reader}", lp[0] if lp else None, ok,
-               "no manifest (list) of a retained snapshot is skipped", text=sname)
+               "no manifest (list) of a retained snapshot is skipped", text=reader)
 
 
 def r1_noskip(ctx: Ctx, rid: str) -> None:
@@ -158,12 +202,13 @@ def r1_noskip(ctx: Ctx, rid: str) -> None:
     g = ctx.cfg(f)
     loops = [n for n in g.nodes if n.kind == "loop" and isinstance(n.ast, ast.For)]
     rs = reach_sets(ctx)
+    cons = contributions(ctx, f)
     for sname, reader in ((rs["manifest_list"], "read_manifest_list_file"), (rs["manifest_path"], "read_manifest_file")):
         lp = [l for l in loops if norm_text(l.ast.iter) == sname]  # type: ignore[union-attr]
-        rd = ctx.calls(f, name=reader)
+        rd = [r for r in ctx.calls(f, name=reader) if lp and any(fr.kind == "loop" and fr.node is lp[0].ast for fr in r.frames)]
         if not lp or not rd:
             ctx.ob(rid, f, f"loop over {sname} reads with {reader}", lp[0] if lp else None, False,
-                   "the reachability walk must read every manifest (list) of every retained snapshot", text=sname)
+                   "the reachability walk must read every manifest (list) of every retained snapshot", text=reader)
             continue
         body = edge_target(g, lp[0], "true")
         w = None
@@ -172,42 +217,82 @@ def r1_noskip(ctx: Ctx, rid: str) -> None:
         ctx.ob(rid, f, f"every iteration over {sname} reaches {reader} or raises", lp[0], w is None,
                "a path that skips the read (e.g. `continue` for a 'historical' snapshot whose list is missing) silently drops "
                "that snapshot's manifests and data files from the reachable set; the sweep then deletes them",
-               witness=ctx.path_witness(f, w), text=sname)
+               witness=ctx.path_witness(f, w), text=reader)
         # and each element read is then consumed: the loop over its result feeds the next set
+    roles = {rs["manifest_list"]: "manifest_list", rs["manifest_path"]: "manifest_path", rs["file_path"]: "file_path"}
     for sname in (rs["manifest_list"], rs["manifest_path"], rs["file_path"]):
-        adds = set_adds(ctx, f, sname)
-        for a in adds:
+        for c in [c for c in cons if c.sname == sname]:
+            a = c.node
             encl = [fr.node for fr in a.frames if fr.kind == "loop"]
             inner = [l for l in loops if l.ast in encl]
+            if c.gens:
+                # a comprehension / update(generator): every element of its iterable is inserted unless a filter drops it;
+                # filters are judged by R1 (they may only test the inserted path). Enclosing loops: the statement itself
+                # must be reached on every iteration (path query below, with the insertion node as the target)
+                pass
             if not inner:
                 continue
             il = max(inner, key=lambda l: l.lineno)
             body = edge_target(g, il, "true")
             if body is None:
                 continue
-            # within the inner loop, a path back to the head that avoids the add may only leave through the
+            # within the inner loop, a path back to the head that avoids the insertion may only leave through the
             # "empty path entry" guard (a branch testing the inserted path itself)
-            arg = a.ast.args[0] if isinstance(a.ast, ast.Call) and a.ast.args else None
-            srcnames = {n for n in ctx.slicer(f).origins(arg, a.id)["names"] if not n.startswith("self")}
+            srcnames = {n for n in ctx.slicer(f).origins(c.elt, a.id)["names"] if not n.startswith("self")}
             guard_false = {(b.id, d) for b in g.nodes if b.kind == "branch" and b.ast is not None
                            and (names_in(b.ast) - {"self"}) <= srcnames and (names_in(b.ast) - {"self"})
                            for d, l in g.succ[b.id] if l == "false"}
             w = find_path(g, body, [il.id], avoid=[a.id], labels=NORMAL, edge_ok=lambda s_, d_, l_: (s_, d_) not in guard_false) \
                 if body != a.id else None
             ctx.ob(rid, f, f"every entry read feeds {sname}", a, w is None,
-                   "no manifest / data file entry is left out except an empty path", witness=ctx.path_witness(f, w))
+                   "no manifest / data file entry is left out except an empty path", witness=ctx.path_witness(f, w),
+                   text=roles[sname])
+
+
+def normaliser_family(ctx: Ctx) -> Set[str]:
+    """Names of the functions that ARE the collector's path normalisation: _normalize_path and every function of the
+    module that it delegates to / that delegates to it with the path passed through unchanged (`return N(path)`)."""
+    gcmod = ctx.fn(GC + "._normalize_path").module
+    fam = {"_normalize_path"}
+    cands = [f for f in ctx.prog.functions.values() if f.module is gcmod and not isinstance(f.node, ast.Lambda)]
+    changed = True
+    while changed:
+        changed = False
+        for f in cands:
+            rets = [n.value for n in ast.walk(f.node) if isinstance(n, ast.Return) and n.value is not None]
+            pnames = {p.name for p in f.params if p.name != "self"}
+            if not rets or len(pnames) != 1:
+                continue
+            pn = next(iter(pnames))
+            deleg = [r.func for r in rets if isinstance(r, ast.Call) and len(r.args) == 1 and not r.keywords
+                     and isinstance(r.args[0], ast.Name) and r.args[0].id == pn]
+            if len(deleg) != len(rets):
+                continue
+            callee_names = {(dotted(d) or "").split(".")[-1] for d in deleg}
+            if f.name in fam and not callee_names <= fam and all(c for c in callee_names):
+                fam |= callee_names  # what a family member delegates to
+                changed = True
+            elif f.name not in fam and callee_names <= fam:
+                fam.add(f.name)  # a thin wrapper around a family member
+                changed = True
+    return fam
+
+
+def _is_norm_call(ctx: Ctx, c: ast.AST) -> bool:
+    return isinstance(c, ast.Call) and (dotted(c.func) or "").split(".")[-1] in normaliser_family(ctx)
 
 
 def r2(ctx: Ctx) -> None:
     ctx.rule("C05.R2", "one normalisation on both sides, depending on the path only: (a) inserted values and the tested key are "
              "results of _normalize_path; (b) PATHPREFIX: a prefix test against a location is separator-terminated", 6)
     f = ctx.fn(GC + ".collect")
-    for sname in reach_sets(ctx).values():
-        for a in set_adds(ctx, f, sname):
-            arg = a.ast.args[0] if isinstance(a.ast, ast.Call) and a.ast.args else None
-            ok = isinstance(arg, ast.Call) and (dotted(arg.func) or "").endswith("_normalize_path")
-            ctx.ob("C05.R2", f, f"{sname}.add(_normalize_path(...))", a, ok,
-                   "the reachable side is normalised by the same function as the listed side")
+    roles = {v: k for k, v in reach_sets(ctx).items()}
+    for c in contributions(ctx, f):
+        if c.sname not in roles:
+            continue
+        ok = _is_norm_call(ctx, c.elt)
+        ctx.ob("C05.R2", f, f"{c.sname} receives _normalize_path(...)", c.node, ok,
+               "the reachable side is normalised by the same function as the listed side", text=roles[c.sname])
     gp = ctx.fn(GC + "._gc_prefix")
     g = ctx.cfg(gp)
     mp = membership_param(ctx)
@@ -216,14 +301,14 @@ def r2(ctx: Ctx) -> None:
     sl = ctx.slicer(gp)
     for b in mem:
         org = sl.origins(b.ast.left, b.id)  # type: ignore[union-attr]
-        ok = any(isinstance(c, ast.Call) and (dotted(c.func) or "").endswith("_normalize_path") for c in org["calls"])
+        ok = any(_is_norm_call(ctx, c) for c in org["calls"])
         ctx.ob("C05.R2", gp, "tested key is _normalize_path(listed path)", b, ok,
                "the listed side is normalised by the same function as the reachable side")
     mt = ctx.fn(GC + "._marker_target")
     mg = ctx.cfg(mt)
     for r in [n for n in mg.nodes if n.kind == "return" and n.id in mg.reachable()]:
         v = r.ast.value  # type: ignore[union-attr]
-        is_norm = isinstance(v, ast.Call) and (dotted(v.func) or "").endswith("_normalize_path")
+        is_norm = _is_norm_call(ctx, v)
         s = fold_str(ctx, mt, v, r.id)
         is_fallback = s is not None and s.startswith("data/")
         ctx.ob("C05.R2", mt, "marker target is normalised (or the legacy data/<name> convention)", r, is_norm or is_fallback,
@@ -258,11 +343,27 @@ def r2(ctx: Ctx) -> None:
     # _normalize_path depends on the path only (modulo leading-slash stripping): idempotent shape
     np_ = ctx.fn(GC + "._normalize_path")
     rets = [n for n in ctx.cfg(np_).nodes if n.kind == "return"]
-    ok = all(isinstance(r.ast.value, ast.Call) and isinstance(r.ast.value.func, ast.Attribute)  # type: ignore[union-attr]
-             and r.ast.value.func.attr == "lstrip" for r in rets)  # type: ignore[union-attr]
+
+    def _strips(fn: FunctionInfo, depth: int = 0) -> bool:
+        rs = [n.value for n in ast.walk(fn.node) if isinstance(n, ast.Return)]
+        if not rs or depth > 3:
+            return False
+        for v in rs:
+            if isinstance(v, ast.Call) and isinstance(v.func, ast.Attribute) and v.func.attr == "lstrip":
+                continue
+            if _is_norm_call(ctx, v):
+                c = ctx.prog.resolve_call(v, fn)  # type: ignore[arg-type]
+                if c.kind == "func" and c.funcs and all(_strips(t, depth + 1) for t in c.funcs):
+                    continue
+            return False
+        return True
+
+    ok = _strips(np_)
     ctx.ob("C05.R2", np_, "_normalize_path strips leading slashes on every return", rets[0] if rets else None, ok and bool(rets),
            "'/data/x' (manifest spelling) and 'data/x' (listing spelling) normalise to the same key")
-    locs = sorted({x.attr for x in ast.walk(np_.node) if isinstance(x, ast.Attribute) and x.attr in ("table_path", "base_path", "location", "prefix")})
+    fam_fns = [f_ for f_ in ctx.prog.functions.values() if f_.module is np_.module and f_.name in normaliser_family(ctx)]
+    locs = sorted({x.attr for f_ in fam_fns for x in ast.walk(f_.node)
+                   if isinstance(x, ast.Attribute) and x.attr in ("table_path", "base_path", "location", "prefix")})
     ctx.ob("C05.R2", np_, "_normalize_path depends on the path only (no table-location rewriting)", None, not locs,
            ("manifest, marker and listing paths are table-relative everywhere" if not locs else
             f"reads {locs}: stripping / rebasing by the table LOCATION (even with a '/' boundary) makes the two spellings of one file "
